@@ -33,6 +33,23 @@ let fnv (l : n list) : string =
   let h = ref 0xcbf29ce484222325L in
   List.iter (fun x -> h := Int64.mul (Int64.logxor !h (Int64.of_int (int_of_n x))) 0x100000001b3L) l;
   Printf.sprintf "%016Lx" !h
+(* byte-string tokens shared by all engines: hex | rep:<len>:<seed> | parts joined by '+' ; "-" = empty
+   (same generator as harness/src/util.rs `rep`) *)
+let rep_byte seed i = (seed * 31 + i * 7 + (i / 251)) land 255
+let tok_string (t : string) : string =
+  if t = "-" then "" else
+    String.concat "" (List.map (fun p ->
+        match String.split_on_char ':' p with
+        | ["rep"; len; seed] ->
+          let len = int_of_string len and seed = int_of_string seed in
+          String.init len (fun i -> Char.chr (rep_byte seed i))
+        | _ -> String.init (String.length p / 2) (fun i -> Char.chr (int_of_string ("0x" ^ String.sub p (2 * i) 2))))
+        (String.split_on_char '+' t))
+let fnv_str (s : string) : string =
+  let h = ref 0xcbf29ce484222325L in
+  String.iter (fun c -> h := Int64.mul (Int64.logxor !h (Int64.of_int (Char.code c))) 0x100000001b3L) s;
+  Printf.sprintf "%016Lx" !h
+
 
 let split_on c s = if s = "" then [] else String.split_on_char c s
 
@@ -375,6 +392,79 @@ let cs_cmd (args : string list) : string =
       (int_of_n s.c_orc.kept_since) (int_of_n s.c_orc.commits_since_gc) (List.length s.c_orc.recent) (List.length s.c_done)
   | _ -> "bad-command"
 
+
+(* ---------- C18: the B+tree as an ordered map (Misc/OMap.v), and its page allocator (Misc/Pages.v) ---------- *)
+let bpt_map : (n list, string) omap ref = ref []
+let bpt_cmpf : (n list -> n list -> comparison) ref = ref lex_cmp
+let bpt_show_key (k : n list) : string =
+  if List.length k <= 24 then hex_of_bytes k else Printf.sprintf "#%d/%s" (List.length k) (fnv k)
+let bpt_show_val (v : string) : string = Printf.sprintf "%d/%s" (String.length v) (fnv_str v)
+let bpt_show_pairs (l : (n list * string) list) : string =
+  "list:" ^ String.concat "," (List.map (fun (k, v) -> bpt_show_key k ^ "=" ^ bpt_show_val v) l)
+let bpt_bound (t : string) : n list bound =
+  if t = "u" then Unb
+  else let k = bytes_of_string (tok_string (String.sub t 2 (String.length t - 2))) in
+    if t.[0] = 'i' then Incl k else Excl k
+let bpt_cmd (args : string list) : string =
+  let cmp = !bpt_cmpf in
+  match args with
+  | ["params"] ->
+    Printf.sprintf "PAGE_SIZE=%d TRUNK_MAX=%d OVF_CAP=%d LEAF_LOCAL=%d,%d INT_LOCAL=%d,%d ok=%b"
+      (int_of_n bPT_PAGE_SIZE) (int_of_n bPT_TRUNK_MAX_ENTRIES) (int_of_n bPT_OVERFLOW_CAP)
+      (int_of_n bPT_LEAF_MIN_LOCAL) (int_of_n bPT_LEAF_MAX_LOCAL) (int_of_n bPT_INT_MIN_LOCAL) (int_of_n bPT_INT_MAX_LOCAL) bpt_params_ok
+  | ["new"; c] -> bpt_map := []; bpt_cmpf := (if c = "ts" then ts_cmp else lex_cmp); "ok"
+  | ["reopen"] -> "ok"
+  | ["ins"; k; v] -> bpt_map := om_insert cmp (bytes_of_string (tok_string k)) (tok_string v) !bpt_map; "ok"
+  | ["del"; k] ->
+    let k = bytes_of_string (tok_string k) in
+    let old = om_get cmp k !bpt_map in
+    bpt_map := om_delete cmp k !bpt_map;
+    (match old with None -> "val:none" | Some v -> "val:" ^ bpt_show_val v)
+  | ["get"; k] ->
+    (match om_get cmp (bytes_of_string (tok_string k)) !bpt_map with None -> "val:none" | Some v -> "val:" ^ bpt_show_val v)
+  | ["range"; lo; hi] ->
+    let lo = bpt_bound lo and hi = bpt_bound hi in
+    let got = bpt_range cmp lo hi !bpt_map in
+    let spec = om_range_spec cmp lo hi !bpt_map in
+    bpt_show_pairs got ^
+    (if got = spec then "" else " !spec=" ^ bpt_show_pairs spec ^ (if bpt_range_known lo !bpt_map then " known=bpt_range_excluded_empty_start" else ""))
+  | ["scan"; d] -> bpt_show_pairs (if d = "f" then !bpt_map else List.rev !bpt_map)
+  | ["seek"; k; cnt; d] ->
+    let k = bytes_of_string (tok_string k) and cnt = nat_of_int (int_of_string cnt) in
+    (match (if d = "f" then om_cursor_fwd cmp k cnt !bpt_map else om_cursor_bwd cmp k cnt !bpt_map) with
+     | None -> "invalid" | Some l -> bpt_show_pairs l)
+  | ["stats"] ->
+    let lovf = List.fold_left (fun acc (k, v) -> acc + int_of_n (bpt_leaf_ovf_pages (n_of_int (List.length k + String.length v)))) 0 !bpt_map in
+    Printf.sprintf "n=%d lovf=%d%s" (List.length !bpt_map) lovf (if om_sortedb cmp !bpt_map then "" else " MODEL-NOT-SORTED")
+  | _ -> "bad-command"
+
+let pg_state = ref bpt_init
+let pg_show (st : pstate) : string =
+  let parts = List.map (fun t ->
+      let e = List.rev_map (fun x -> string_of_int (int_of_n x)) t.t_stack in
+      Printf.sprintf "%d:%d:%s" (int_of_n t.t_page) (List.length e) (fnv_str (String.concat "." e))) st.p_chain in
+  Printf.sprintf "st=%d,%d,%d,[%s]" (int_of_n st.p_total) (int_of_n (p_head st)) (int_of_n st.p_count) (String.concat ";" parts)
+let pg_cmd (args : string list) : string =
+  match args with
+  | ["new"] -> pg_state := bpt_init; "tr=- " ^ pg_show !pg_state
+  | ["run"; ops] ->
+    let out = ref [] and stop = ref false in
+    List.iter (fun o ->
+        if not !stop then begin
+          if o.[0] = 'a' then
+            (match bpt_alloc !pg_state with
+             | None -> out := "a!" :: !out; stop := true
+             | Some (p, st) -> pg_state := st; out := ("a" ^ string_of_int (int_of_n p)) :: !out)
+          else if o.[0] = 'f' then
+            (match bpt_free (n_of_int (int_of_string (String.sub o 1 (String.length o - 1)))) !pg_state with
+             | None -> out := (o ^ "!") :: !out; stop := true
+             | Some st -> pg_state := st; out := o :: !out)
+          else (out := ("?" ^ o) :: !out; stop := true)
+        end) (split_on ',' (if ops = "-" then "" else ops));
+    Printf.sprintf "tr=%s %s" (if !out = [] then "-" else String.concat "," (List.rev !out)) (pg_show !pg_state)
+  | _ -> "bad-command"
+
+
 let () =
   try
     while true do
@@ -386,6 +476,8 @@ let () =
             | "wal" :: rest -> wal_cmd rest
             | "e2" :: rest -> e2_cmd rest
             | "ck" :: rest -> ck_cmd rest
+            | "bpt" :: rest -> bpt_cmd rest
+            | "pg" :: rest -> pg_cmd rest
             | "orc" :: rest -> orc_cmd rest
             | "cs" :: rest -> cs_cmd rest
             | "ri" :: rest -> ri_cmd rest
